@@ -29,8 +29,9 @@ Record ssx_comp : Type := SSXC { xc_moles : Q; xc_si : Q; xc_frac : Q; xc_l10fra
    mixture, not n_i / n) *)
 Record ssx_obs : Type := SSX { sx_ideal : bool; sx_gap : bool; sx_a0 : Q; sx_a1 : Q; sx_comps : list ssx_comp }.
 
+(* c_ssabs: total stored amount (DUMP -moles) of every solid solution that the engine treats as absent (ss_in = 0) *)
 Record hcase : Type := CASE { c_pp : list pp_obs; c_exch : list site_obs; c_surf : list site_obs; c_ss : list ss_obs;
-                              c_ssx : list ssx_obs }.
+                              c_ssx : list ssx_obs; c_ssabs : list Q }.
 
 (* ------------------------------------------------------------------ the property (over R) *)
 Section Valid.
@@ -63,6 +64,7 @@ Section Valid.
        (~ 0 < tot -> sumR (map snd comps) <= 1 + tolAct)).
 
   Definition tolFrac : R := 1 / 1000000000.     (* stored numbers carry 14 significant digits *)
+  Definition tolAbsent : R := 1 / 1000000000000. (* a solid solution left out of the equations holds no material *)
 
   (* Guggenheim (Redlich-Kister) activity coefficients of a binary solution, x1 x2 the mole fractions *)
   Definition gugg1 (a0 a1 x2 : R) : R := x2 * x2 * (a0 - a1 * (3 - 4 * x2)).
@@ -103,7 +105,7 @@ Definition ssx_valid (s : ssx_obs) : Prop :=
 
 Definition hetero_valid (c : hcase) : Prop :=
   Forall pp_valid (c_pp c) /\ Forall site_valid (c_exch c) /\ Forall site_valid (c_surf c) /\ Forall ss_valid (c_ss c)
-  /\ Forall ssx_valid (c_ssx c).
+  /\ Forall ssx_valid (c_ssx c) /\ Forall (fun t => (Q2R t <= tolAbsent)%R) (c_ssabs c).
 
 (* ------------------------------------------------------------------ the executable checker (over Q) *)
 Open Scope Q_scope.
@@ -166,4 +168,4 @@ Definition ssx_ok (s : ssx_obs) : bool :=
 
 Definition case_ok (c : hcase) : bool :=
   forallb pp_ok (c_pp c) && forallb site_ok (c_exch c) && forallb site_ok (c_surf c) && forallb ss_ok (c_ss c)
-  && forallb ssx_ok (c_ssx c).
+  && forallb ssx_ok (c_ssx c) && forallb (fun t => Qle_bool t (1 # 1000000000000)) (c_ssabs c).
